@@ -152,6 +152,14 @@ def with_fault(plan, k, info=None):
         q.cycles[j] = ['fsarm %d once' % (k - 5000)] + [s for s in q.cycles[j] if parse_step(s)[0] != 'fsarm']
         q.opt('c16_fault', 'once:%d' % (k - 5000))
         return q
+    if k >= 30000:      # a text nested far deeper than anything save_variable() writes
+        kind, depth, closed = DEEP[k - 30000]
+        q.cfg('MaxStringLength', 2000000)
+        q.cycles.append([send(0, 'do call /sv rvdeep %s %d:%d\r\n' % (kind, depth, closed))])
+        q.cycles.append([send(0, 'do call /sv rvraw %s\r\n' % GOOD)])
+        q.idle(1)
+        q.opt('c16_fault', 'value:deep:%s%d%s' % (kind, depth, '' if closed else '-open'))
+        return q
     if info is None: return q
     if k < 20000:       # damaged save file
         text = bytes.fromhex(info['textB']) if info.get('textB') else b''
@@ -193,6 +201,9 @@ def base_info(plan, res):
             'mut_calls': int(mut[0]) if mut else 0, 'svtexts': sv, 'per_value': 80, 'rest': _recs(res, 'RTG') + _recs(res, 'RTS') + _recs(res, 'REST')}
 
 
+DEEP = [(kind, depth, closed) for kind in 'amc' for depth in (20, 24, 25, 26, 27, 40, 300, 5000, 60000) for closed in (1, 0)]
+
+
 def points(plan, res, tier, rng):
     info = base_info(plan, res)
     pts = list(range(info['mut_calls'] + 1)) if info['textA'] and info['textB'] else []
@@ -207,6 +218,8 @@ def points(plan, res, tier, rng):
     if nv:
         per = info['per_value']
         pts += [20000 + x for x in range(nv * per)]
+    deepest = [x for x, d in enumerate(DEEP) if d[1] >= 60000 and d[0] in 'am']      # always: these are the ones that recurse furthest
+    pts += [30000 + x for x in (range(len(DEEP)) if tier != 'quick' else sorted(set(deepest + rng.sample(range(len(DEEP)), 8))))]
     return pts
 
 
